@@ -5,6 +5,8 @@ use parol::{calculate_lookahead_dfas, check_and_transform_grammar, generate_pars
 use std::collections::BTreeMap;
 
 pub struct LlBuilt {
+    /// per production of the transformed grammar: ProductionAttribute::AddToCollection (rendered as is_push_production)
+    pub push: Vec<bool>,
     pub g2: G,
     pub automata_sx: String,
     pub export: parol::generators::ParserExportModel,
@@ -15,23 +17,35 @@ pub fn build_ll(g: &G, maxk: usize) -> Result<LlBuilt, String> {
     let cfg = g.to_cfg();
     let r = std::panic::catch_unwind(|| -> Result<LlBuilt, String> {
         let cfg2 = check_and_transform_grammar(&cfg, GrammarType::LLK).map_err(|_| "rejected-by-checks".to_string())?;
-        // keep parol's own terminal numbering here: the automata are sorted by it
-        let g2 = G::from_cfg(&cfg2, false);
-        let tm: BTreeMap<u16, u16> = cfg2.get_ordered_terminals().iter().enumerate()
-            .map(|(i, (t, _, _, _))| (i as u16 + 5, 5 + (t.as_bytes()[0] - b'a') as u16)).collect();
-        let mut gc = GrammarConfig::new(cfg2.clone(), maxk);
-        let dfas = calculate_lookahead_dfas(&gc, maxk).map_err(|_| "not-ll-k".to_string())?;
-        let k = dfas.values().map(|d| d.k).max().unwrap_or(0);
-        gc.update_lookahead_size(k);
-        let export = generate_parser_export_model(&gc, &dfas).map_err(|e| format!("export-error {e}"))?;
-        let autos: Vec<String> = export.lookahead_automata.iter().map(|a| {
-            let tr: Vec<String> = a.transitions.iter().map(|t| format!("({} {} {} {})", t.from_state,
-                t.term, t.to_state, t.prod_num)).collect();
-            format!("({} {} {} ({}))", a.non_terminal_index, a.prod0, a.k, tr.join(" "))
-        }).collect();
-        Ok(LlBuilt { g2, automata_sx: format!("({})", autos.join(" ")), export, tm })
+        build_ll_transformed(&cfg2, maxk)
     });
     match r { Ok(x) => x, Err(_) => Err("panic".to_string()) }
+}
+
+/// From an already checked and transformed grammar (e.g. GrammarConfig.cfg of a PAR text) to the export model.
+pub fn build_ll_transformed(cfg2: &parol::Cfg, maxk: usize) -> Result<LlBuilt, String> {
+    // keep parol's own terminal numbering here: the automata are sorted by it
+    let g2 = G::from_cfg(cfg2, false);
+    let tm: BTreeMap<u16, u16> = cfg2.get_ordered_terminals().iter().enumerate()
+        .map(|(i, (t, _, _, _))| (i as u16 + 5, 5 + (t.as_bytes()[0] - b'a') as u16)).collect();
+    let mut gc = GrammarConfig::new(cfg2.clone(), maxk);
+    let dfas = calculate_lookahead_dfas(&gc, maxk).map_err(|_| "not-ll-k".to_string())?;
+    let k = dfas.values().map(|d| d.k).max().unwrap_or(0);
+    gc.update_lookahead_size(k);
+    let export = generate_parser_export_model(&gc, &dfas).map_err(|e| format!("export-error {e}"))?;
+    let autos: Vec<String> = export.lookahead_automata.iter().map(|a| {
+        let tr: Vec<String> = a.transitions.iter().map(|t| format!("({} {} {} {})", t.from_state,
+            t.term, t.to_state, t.prod_num)).collect();
+        format!("({} {} {} ({}))", a.non_terminal_index, a.prod0, a.k, tr.join(" "))
+    }).collect();
+    let push: Vec<bool> = cfg2.pr.iter().map(|p| p.2 == parol::grammar::ProductionAttribute::AddToCollection).collect();
+    Ok(LlBuilt { push, g2, automata_sx: format!("({})", autos.join(" ")), export, tm })
+}
+
+impl LlBuilt {
+    pub fn export_push_count(&self) -> usize {
+        self.push.iter().filter(|x| **x).count()
+    }
 }
 
 pub fn ll_grammar(rng: &mut Rng, i: usize) -> G {
